@@ -69,6 +69,9 @@ func main() {
 		b, _ := json.MarshalIndent(core.Manifest(), "", " ")
 		fmt.Println(string(b))
 	default:
+		if f := core.Subcommands[os.Args[1]]; f != nil {
+			os.Exit(f(os.Args[2:]))
+		}
 		usage()
 	}
 }
